@@ -1,13 +1,99 @@
+import json
+import os
+import re
+import time
+
+
+def _sharded_sweep(runner, stage):
+    """The bounded-exhaustive operator sweep split over `shards` processes: C03_sweep decodes --bound = 100 * shard + 10000 * shards
+    and every shard enumerates all (parent form, variant) choice sequences but runs only its own share, so that the whole
+    space (61 parent forms x 5 variants, ~24 000 operator pairs / triples) is covered in the wall time of 1/shards of it."""
+    shards = stage.get("shards", 16)
+    t_start = time.time()
+    binary = "C03_sweep"
+    hdir = runner.build("asan", [binary])
+    exe = os.path.join(hdir, binary)
+    procs = []
+    for sh in range(shards):
+        st = dict(stage)
+        st["binary"] = binary
+        st["bound"] = 100 * sh + 10000 * shards
+        st["case_timeout"] = stage.get("case_timeout", 600)
+        p = runner.spawn_worker(exe, st, "ex", runner.seed, 0, sh, 0)
+        p["st"] = st
+        procs.append(p)
+    parts = [p["part"] for p in procs]
+    while procs:
+        time.sleep(0.05)
+        for p in list(procs):
+            rc = p["proc"].poll()
+            if rc is None:
+                if time.time() - p["t0"] > stage.get("worker_timeout", 3600):
+                    p["proc"].kill()
+                    runner.notes.append("sweep shard %d exceeded the worker time limit; the enumeration is incomplete" % p["w"])
+                    procs.remove(p)
+                    runner.collect_part(p["part"])
+                continue
+            procs.remove(p)
+            try:
+                out = open(p["part"] + ".stdout", errors="replace").read()
+                err = open(p["part"] + ".stderr", errors="replace").read()
+            except OSError:
+                out, err = "", ""
+            runner.collect_part(p["part"])
+            if rc == 0:
+                continue
+            if rc == 10:
+                m = re.search(r"VP-FAIL property=\S+ sig=(.*) replay=(\S+)", out)
+                if m:
+                    runner.consider_violation(exe, p["st"], m.group(2), m.group(1))
+                else:
+                    runner.notes.append("sweep shard exit 10 without VP-FAIL line")
+                continue
+            if rc == 20:
+                import sys
+                sys.stderr.write(err[-3000:])
+                print("CHECK-BROKEN property=C03 harness error (sweep)")
+                sys.exit(2)
+            cur = p["part"] + ".cur"
+            if os.path.exists(cur):
+                import hashlib
+                import shutil
+                os.makedirs(runner.replay_dir, exist_ok=True)
+                data = open(cur, "rb").read()
+                dest = os.path.join(runner.replay_dir, "%s-crash-%s.tape" % (binary, hashlib.sha1(data).hexdigest()[:16]))
+                shutil.copyfile(cur, dest)
+                runner.consider_crash(exe, p["st"], dest, err)
+    complete = 0
+    for part in parts:
+        try:
+            d = json.load(open(part))
+        except Exception:
+            continue
+        complete += 1 if d.get("counters", {}).get("exhaustive_complete", 0) == 1 else 0
+    if complete != shards:
+        for part in parts:
+            try:
+                d = json.load(open(part))
+                d.setdefault("counters", {})["exhaustive_complete"] = 0
+                json.dump(d, open(part, "w"))
+            except Exception:
+                pass
+        runner.notes.append("operator sweep: only %d of %d shards enumerated their part completely (a violation stops a shard)" % (complete, shards))
+    else:
+        runner.notes.append("operator sweep: all %d shards complete (61 parent forms x 5 variants), %.0f s wall" % (shards, time.time() - t_start))
+
+
 PLAN = {
     "level": "translation_validation",
     "quick": [
         replays("C03"), replays("C03_sweep"),
-        tape("C03_sweep", 40, size=60, name="C03_sweep:rc (random parent forms x variants)"),
+        custom("C03_sweep:ex sharded (all 61 parent forms x 5 variants)", _sharded_sweep, shards=16),
         tape("C03", 1600, size=300),
     ],
     "thorough": [
         replays("C03"), replays("C03_sweep"),
-        tape("C03_sweep", 0, mode="ex", name="C03_sweep:ex (all 61 parent forms x 5 variants, ~24 000 operator pairs/triples)"),
+        custom("C03_sweep:ex sharded (all 61 parent forms x 5 variants, ~24 000 operator pairs/triples)", _sharded_sweep, shards=16),
         tape("C03", 24000, size=400),
     ],
     "class_floors": {"type:ode": 0.15, "type:dae": 0.03, "type:nla": 0.03, "type:algebraic": 0.1, "scaled-connection": 0.1, "multi-component": 0.3,
